@@ -1,6 +1,6 @@
 /-
 C01 (extension) — the GENERAL `Aggregate`:   seq.Aggregate(seed, lambda acc, x: body)
-with a literal seed and a pure two-variable body, as an event-level scalar column.
+with a literal seed (int / float, possibly negative) and a pure two-variable body, as an event-level\nscalar column.
 
 `Gen.compileA` (lean/FaxVerif/Gen/Agg.lean) models what the real translator emits
 (`visit_call_Aggregate_initial` + `set_var.emit`): the accumulator is declared next to the
@@ -17,20 +17,23 @@ Full statement (not proved at this strength):
     ∀ b q, WellTyped q → ∃ p, pipeline b q = ok p ∧ ∀ ev, runEvent p ev = denoteRows q ev
 What is proved (success direction, `BackendOK` = ATLAS / CMS AOD, all chains / events / number
 models): `aggregate_is_fold` (the loop is the fold), `aggregate_scalar_correct_partial` (scalars
-over aggregates), `aggregateRows_correct_partial` (the whole package), under the EXACT TYPING SIDE
-CONDITION `aggExact`: the accumulator keeps the seed's type and holds the body's value without a
-conversion of kind — int seed & int body, or float seed & floating body.
-Outside it the translator WIDENS, which is numerically right but changes the kind of the value:
-  * int seed, floating body (this is what `Sum()` of floats is): `double acc (seed)` — Python's
-    accumulator is the integer seed until the first element (`aggExact_necessary_widened`);
+over aggregates), `aggregateRows_correct_partial` (the whole package), for aggregates that are
+  * EXACTLY TYPED (`aggExact`): the accumulator keeps the seed's type and holds the body's value
+    without a conversion of kind — int seed & int body, or float seed & floating body; or
+  * WIDENED (`aggWiden`): int seed, floating body — this is what `Sum()` of floats is — with every
+    occurrence of `acc` an operand of `/` or of `+ - *` whose other operand is of floating type
+    (`accOK`), over AT LEAST ONE kept element (`AggNonEmpty`): `aggregate_widened_is_fold_partial`.
+    The translator declares `double acc (seed)`: the C++ accumulator starts as the floating seed,
+    Python's as the integer seed; the first step gives the same value from both
+    (`aggregate_first_step_insensitive`), afterwards both hold the same floating value. TYPED
+    equality of the results holds; it is false over an empty sequence (the query denotes the int
+    seed, the code writes the floating seed: `aggExact_necessary_widened`) and, for an abstract
+    number model, outside `accOK` (`acc * acc + x`: Python multiplies integers).
+Still outside the theorems (text tie + numeric comparison of the executed model only):
   * float seed, int body: `acc = static_cast<double>(body)` — Python's accumulator becomes an int
-    (`aggExact_necessary_cast`).
-Neither is a defect w.r.t. Python numerics (the values are equal as numbers; C++ `int` → `double`
-is exact); they are covered by the text tie and by the numeric comparison of the executed model
-with its denotation, not by a theorem:
-    -- aggregate_widened_is_fold (NOT proved): for an int seed and a floating body in which every
-    -- occurrence of `acc` is an operand of `/` or of an operator whose other operand is floating,
-    -- over ≥ 1 kept element, the emitted loop leaves the value the query denotes.
+    (`aggExact_necessary_cast`); numerically equal;
+  * widened aggregates over an empty sequence / outside `accOK`; numerically equal for C++ ints.
+None of these is a defect w.r.t. Python numerics.
 -/
 import FaxVerif.Gen.AggRowsCorrect
 import FaxVerif.C01.Theorems
@@ -72,7 +75,7 @@ theorem aggregate_is_fold (C : Ctx D) (QC : QCtx D) (hN : QC.N = C.N) (hev : QC.
     ∃ s', execs C (compAgg B nm g n).stmts s = .ok s' ∧ s'.rows = s.rows ∧
       s'.env (nm n) = some (.val v) ∧ HasTy v g.accTy ∧
       (∀ y, ¬ Touch nm n (compAgg B nm g n).next y → s'.env y = s.env y) := by
-  obtain ⟨s', h1, h2, h3, h4, h5⟩ := agg_fold_correct C QC hN hev B hB nm hinj hres hcollT g n s ws v hdone hwt hmt hchain
+  obtain ⟨s', h1, h2, h3, h4, h5⟩ := agg_fold_correct C QC hN hev B hB.base nm hinj hres hcollT g n (tokChain_of_notToken hB.notToken nm C g.c (n + 1)) s ws v hdone hwt hmt hchain
     (by rw [foldG_eq_foldlM]; exact hfold)
   refine ⟨s', h1, h2, ?_, h4, h5⟩
   simp only [compAgg, evalE] at h3
@@ -130,7 +133,7 @@ theorem aggregate_scalar_correct_partial (C : Ctx D) (QC : QCtx D) (hN : QC.N = 
     (hcollT : ∀ name, B.collType name = QC.collType name)
     (e : GE) (n : Nat) (s : St D) (v : Val D)
     (hdone : DeclsDoneA C.N (compGE B nm e n).decls s.env)
-    (hwt : wtGE e = true) (hct : ∀ g ∈ aggsGE e, AggTyped QC g)
+    (hwt : wtGE e = true) (hct : ∀ g ∈ aggsGE e, AggHyp QC g)
     (hden : denote QC [("e", evtVal)] (geQ "e" e) = .ok v) :
     ∃ s', execs C (compGE B nm e n).stmts s = .ok s' ∧ s'.rows = s.rows ∧
       evalE C.N s'.env (compGE B nm e n).val = .ok v ∧ HasTy v (tyGE e) ∧
@@ -148,12 +151,94 @@ theorem aggregateRows_correct_partial (B : Backend) (hB : BackendOK B) (nm cn : 
     (hinj : ∀ i j, nm i = nm j → i = j) (hcinj : ∀ i j, cn i = cn j → i = j)
     (hres : ∀ j, nm j ≠ "result") (hcres : ∀ k, cn k ≠ "result") (hdisj : ∀ j k, nm j ≠ cn k)
     (QC : QCtx D) (hcollT : ∀ name, B.collType name = QC.collType name)
-    (cols : AQ) (hhyp : ∀ p ∈ cols, wtGE p.2 = true ∧ ∀ g ∈ aggsGE p.2, AggTyped QC g)
+    (cols : AQ) (hhyp : ∀ p ∈ cols, wtGE p.2 = true ∧ ∀ g ∈ aggsGE p.2, AggHyp QC g)
     (σc : Env D) (hσ : ∀ k, k < cols.length → (σc (cn k)).isSome = true)
     (rows : List (List (Val D)))
     (hden : denoteRows QC (AQ.toQuery cols) = .ok rows) :
     ∃ σ', runEvent (compileA B nm cn cols) QC.N σc QC.ev = .ok (rows, σ') :=
   aggRows_correct B hB nm cn hinj hcinj hres hcres hdisj QC hcollT cols hhyp σc hσ rows hden
+
+/-! ### the widened accumulator (int seed, floating body: `Sum()` of floats) -/
+
+/-- **C01.aggregate_first_step_insensitive** — if every occurrence of `acc` in the body is an
+operand of `/` or of `+ - *` whose other operand is of floating type, one step of the user-level
+fold gives the same value (or fault) from the INTEGER accumulator `k` and from the floating `k.0`. -/
+theorem aggregate_first_step_insensitive (C : QCtx D) (curTy : Option Ty) (k : Int) (v : Val D) (a x : String)
+    (hax : x ≠ a) (ρ : LEnv D) (hty : ∀ t, curTy = some t → HasTy v t)
+    (f : AE) (hw : wtAE .int curTy f = true) (hok : accOK (curT curTy) f = true) (hm : MethTyped v (methsAE f)) :
+    denote C ((x, v) :: (a, .int k) :: ρ) (aeQ a x f) = denote C ((x, v) :: (a, .dbl (C.N.ofInt k)) :: ρ) (aeQ a x f) :=
+  accStep_insensitive C curTy k v a x hax ρ hty f hw hok hm
+
+/-- **C01.aggregate_body_correct_widened** — the body's C++ text, translated for an int `acc`,
+evaluates to what the body denotes also when the accumulator variable holds a FLOATING value
+(the int/int division cast is then the identity); the value has the computed type up to widening. -/
+theorem aggregate_body_correct_widened (C : QCtx D) (σ : Env D) (accE cur : CExpr) (curTy : Option Ty) (ptr : Bool)
+    (xa : D) (v : Val D) (a x : String) (hax : x ≠ a) (ρ : LEnv D)
+    (hacc : evalE C.N σ accE = .ok (.dbl xa))
+    (hcur : evalE C.N σ cur = .ok v) (hty : ∀ t, curTy = some t → HasTy v t)
+    (f : AE) (hw : wtAE .int curTy f = true) (hm : MethTyped v (methsAE f)) :
+    evalE C.N σ (compAE ptr accE cur .int (curT curTy) f) = denote C ((x, v) :: (a, .dbl xa) :: ρ) (aeQ a x f) ∧
+    ∀ w, denote C ((x, v) :: (a, .dbl xa) :: ρ) (aeQ a x f) = .ok w → HasTyW w (tyAE .int (curT curTy) f) :=
+  ae_correct_wide C σ accE cur curTy ptr xa v a x hax ρ hacc hcur hty f hw hm
+
+/-- **C01.aggregate_widened_is_fold_partial** — int seed, floating body (`double acc (seed);`,
+`acc = body;` without cast), `accOK`: over AT LEAST ONE kept element the emitted loop leaves in the
+accumulator exactly the value `List.foldlM` of the user-level step gives from the INTEGER seed —
+typed equality, every chain / event / number model. In particular `Sum()` of floats
+(`Aggregate(0, acc + x)`). Full statement without `ws ≠ []` is false for the typed equality
+(`aggExact_necessary_widened`); without `accOK` it needs `Num` to be a ring homomorphism on the
+C++ `int` range, which the abstract number model does not state. -/
+theorem aggregate_widened_is_fold_partial (C : Ctx D) (QC : QCtx D) (hN : QC.N = C.N) (hev : QC.ev = C.ev)
+    (B : Backend) (hB : BackendOK B) (nm : Nat → String)
+    (hinj : ∀ i j, nm i = nm j → i = j) (hres : ∀ j, nm j ≠ "result")
+    (hcollT : ∀ name, B.collType name = QC.collType name)
+    (g : Agg) (n : Nat) (s : St D) (ws : List (Val D)) (v : Val D)
+    (hdone : DeclsDoneA C.N (compAgg B nm g n).decls s.env)
+    (hwt : wtAggBase g = true) (hwd : aggWiden g = true) (hmt : AggTyped QC g)
+    (hchain : denote QC [("e", evtVal)] (chainQ "e" g.c) = .ok (.vec ws)) (hne : ws ≠ [])
+    (hfold : ws.foldlM (aggStep QC g) (g.seed.val QC.N) = .ok v) :
+    ∃ s', execs C (compAgg B nm g n).stmts s = .ok s' ∧ s'.rows = s.rows ∧
+      s'.env (nm n) = some (.val v) ∧ HasTy v g.accTy ∧
+      (∀ y, ¬ Touch nm n (compAgg B nm g n).next y → s'.env y = s.env y) := by
+  obtain ⟨s', h1, h2, h3, h4, h5⟩ := agg_widen_fold_correct C QC hN hev B hB.base nm hinj hres hcollT g n (tokChain_of_notToken hB.notToken nm C g.c (n + 1)) s ws v hdone hwt hwd hmt hchain hne
+    (by rw [foldG_eq_foldlM]; exact hfold)
+  refine ⟨s', h1, h2, ?_, h4, h5⟩
+  simp only [compAgg, evalE] at h3
+  cases hs : s'.env (nm n) with
+  | none => rw [hs] at h3; simp at h3
+  | some sl =>
+    rw [hs] at h3
+    cases sl with
+    | uninit => simp at h3
+    | val w => simp only [Except.ok.injEq] at h3; rw [h3]
+
+/-! ### the token idiom (CMS miniAOD), loop level -/
+
+/-- **C01.aggregate_is_fold_tok_partial** — `aggregate_is_fold` for EVERY backend satisfying
+`BackendBase` (ATLAS, CMS AOD and CMS miniAOD): on the token idiom the retrieval
+`iEvent.getByToken(token, result)` needs the token of this chain to be bound, in the run's token
+table, to the chain's container type and bank (`TokChain`; vacuous for the backends retrieving by
+bank name). `compileA` emits such a table entry per aggregate (checked by the text tie on
+cms_miniaod); that the emitted table satisfies `TokChain` for every aggregate of the package — the
+analogue of `tokCols_eventRows` — is NOT proved, so the end-to-end `aggregateRows_correct_partial`
+stays at `BackendOK`. Exact typing (`wtAgg`) or, with `hw`, the widened case. -/
+theorem aggregate_is_fold_tok_partial (C : Ctx D) (QC : QCtx D) (hN : QC.N = C.N) (hev : QC.ev = C.ev)
+    (B : Backend) (hB : BackendBase B) (nm : Nat → String)
+    (hinj : ∀ i j, nm i = nm j → i = j) (hres : ∀ j, nm j ≠ "result")
+    (hcollT : ∀ name, B.collType name = QC.collType name)
+    (g : Agg) (n : Nat) (htok : TokChain B nm C g.c (n + 1)) (s : St D) (ws : List (Val D)) (v : Val D)
+    (hdone : DeclsDoneA C.N (compAgg B nm g n).decls s.env)
+    (hbase : wtAggBase g = true) (hmt : AggTyped QC g)
+    (hw : aggExact g.seed.ty g.bodyTy = true ∨ (aggWiden g = true ∧ ws ≠ []))
+    (hchain : denote QC [("e", evtVal)] (chainQ "e" g.c) = .ok (.vec ws))
+    (hfold : ws.foldlM (aggStep QC g) (g.seed.val QC.N) = .ok v) :
+    ∃ s', execs C (compAgg B nm g n).stmts s = .ok s' ∧ s'.rows = s.rows ∧
+      evalE C.N s'.env (compAgg B nm g n).val = .ok v ∧ HasTy v g.accTy ∧
+      (∀ y, ¬ Touch nm n (compAgg B nm g n).next y → s'.env y = s.env y) := by
+  have hfold' : foldG (aggStep QC g) ws (g.seed.val QC.N) = .ok v := by rw [foldG_eq_foldlM]; exact hfold
+  rcases hw with hex | ⟨hwd, hne⟩
+  · exact agg_fold_correct C QC hN hev B hB nm hinj hres hcollT g n htok s ws v hdone (by simp [wtAgg, hbase, hex]) hmt hchain hfold'
+  · exact agg_widen_fold_correct C QC hN hev B hB nm hinj hres hcollT g n htok s ws v hdone hbase hwd hmt hchain hne hfold'
 
 /-! ### the exact typing side condition cannot be dropped from the TYPED statement -/
 
@@ -221,6 +306,16 @@ example : wtAgg exAggInt = true := by decide
 example : exAggSq.accTy = .double ∧ exAggInt.accTy = .int := by decide
 example : wtGE (.bin .div (.agg exAggInt) (.bin .add (.agg exAggSq) (.int 1))) = true := by decide
 example : wtAE .int none (.bin .add (.bin .mul .acc (.int 2)) (.meth "i" .int)) = true := by decide
+-- `Sum()` of floats / doubles written as an Aggregate is inside the theorems (widened case) ...
+example : wtGE (.agg ⟨⟨"As", "ba", [.sel (.meth "f" .float)]⟩, .int 0, .bin .add .acc .it⟩) = true := by decide
+example : aggWiden ⟨⟨"As", "ba", []⟩, .int 0, .bin .add .acc (.meth "d" .double)⟩ = true := by decide
+example : aggWiden ⟨⟨"As", "ba", []⟩, .int 3, .bin .add (.bin .div .acc (.int 2)) (.meth "d" .double)⟩ = true := by decide
+-- ... `acc * acc + x` (integer arithmetic on the accumulator before the float comes in) is not
+example : aggWiden ⟨⟨"As", "ba", []⟩, .int 2, .bin .add (.bin .mul .acc .acc) (.meth "d" .double)⟩ = false := by decide
+-- negative literal seeds (`int acc ((-(3)));`, `double acc ((-(5e-1)));`) are inside the exact fragment
+example : wtAgg ⟨⟨"As", "ba", []⟩, .nint 3, .bin .sub .acc (.meth "i" .int)⟩ = true := by decide
+example : wtAgg ⟨⟨"As", "ba", [.sel (.meth "d" .double)]⟩, .ndbl 5 (-1), .bin .mul .acc .it⟩ = true := by decide
+example (N : Num D) : (Seed.nint 3).val N = .int (-3) ∧ (Seed.nint 3).ty = .int := ⟨rfl, rfl⟩
 -- outside the exact fragment: Sum of doubles (int seed, floating body), and a float seed with an int body
 example : wtAggBase ⟨⟨"As", "ba", []⟩, .int 0, .bin .add .acc (.meth "d" .double)⟩ = true ∧
     wtAgg ⟨⟨"As", "ba", []⟩, .int 0, .bin .add .acc (.meth "d" .double)⟩ = false := by decide
